@@ -82,6 +82,80 @@ func fullScanLoop(l *loopInfo, p ssa.Value) (idx ssa.Value, ok bool, why string)
 	return bo.X, true, ""
 }
 
+// fullScanLoopAny: like fullScanLoop, and also `for i := 0; i <= len(p)-1; i++` and the descending scan
+// `for i := len(p)-1; i >= 0; i--`. Returns the value that indexes the scanned slice.
+func fullScanLoopAny(l *loopInfo, p ssa.Value) (idx ssa.Value, ok bool) {
+	if idx, ok, _ := fullScanLoop(l, p); ok {
+		return idx, true
+	}
+	iff, isIf := l.Head.Instrs[len(l.Head.Instrs)-1].(*ssa.If)
+	if !isIf {
+		return nil, false
+	}
+	bo, isBin := iff.Cond.(*ssa.BinOp)
+	if !isBin {
+		return nil, false
+	}
+	isLenOfP := func(v ssa.Value) bool {
+		call, isCall := v.(*ssa.Call)
+		if !isCall {
+			return false
+		}
+		b, isB := call.Call.Value.(*ssa.Builtin)
+		return isB && b.Name() == "len" && (call.Call.Args[0] == p || sameFieldReload(call.Call.Args[0], p, l) || sameSSAExpr(call.Call.Args[0], p, 0))
+	}
+	isLenMinus1 := func(v ssa.Value) bool {
+		b2, ok := v.(*ssa.BinOp)
+		if !ok || b2.Op != token.SUB {
+			return false
+		}
+		c, isC := constInt(b2.Y)
+		return isC && c == 1 && isLenOfP(b2.X)
+	}
+	phi, isPhi := bo.X.(*ssa.Phi)
+	if !isPhi || phi.Block() != l.Head {
+		return nil, false
+	}
+	step := func(want int64, tok token.Token) (hasStep bool, start ssa.Value, okShape bool) {
+		okShape = true
+		for _, e := range phi.Edges {
+			if eb, isB := e.(*ssa.BinOp); isB && eb.Op == tok && eb.X == ssa.Value(phi) {
+				if c, isC := constInt(eb.Y); isC && c == want {
+					hasStep = true
+					continue
+				}
+			}
+			if e == ssa.Value(phi) {
+				continue
+			}
+			if start != nil {
+				okShape = false
+			}
+			start = e
+		}
+		return
+	}
+	switch bo.Op {
+	case token.LEQ: // i <= len(p)-1, from 0 upwards
+		if !isLenMinus1(bo.Y) {
+			return nil, false
+		}
+		hasStep, start, okShape := step(1, token.ADD)
+		if c, isC := constInt(start); hasStep && okShape && start != nil && isC && c == 0 {
+			return phi, true
+		}
+	case token.GEQ: // i >= 0, from len(p)-1 downwards
+		if c, isC := constInt(bo.Y); !isC || c != 0 {
+			return nil, false
+		}
+		hasStep, start, okShape := step(1, token.SUB)
+		if hasStep && okShape && start != nil && isLenMinus1(start) {
+			return phi, true
+		}
+	}
+	return nil, false
+}
+
 func sliceParamOf(f *ssa.Function) ssa.Value {
 	for _, p := range f.Params {
 		if sl, ok := p.Type().Underlying().(*types.Slice); ok && namedKey(sl.Elem()) == igEdge {
